@@ -12,6 +12,19 @@ DelSnapOf(a, i) == [t |-> "delsnap", who |-> <<a, i>>]
 Read == [t |-> "read", data |-> TRUE]
 Count == [t |-> "read", data |-> FALSE]
 
+GC(g) == [t |-> "gc", grace |-> g]
+AG == {"c1", "g1"}
+Role_G == [a \in AG |-> IF a = "g1" THEN "collector" ELSE "committer"]
+Idx_G == [a \in AG |-> IF a = "c1" THEN 1 ELSE 2]
+Sep_G == [a \in AG |-> a]
+Prog_GApp == [a \in AG |-> IF a = "c1" THEN <<App(1)>> ELSE <<GC(10)>>]
+Prog_GDel == [a \in AG |-> IF a = "c1" THEN <<Del({961})>> ELSE <<GC(10)>>]
+Prog_GExp == [a \in AG |-> IF a = "c1" THEN <<Exp(2), App(1)>> ELSE <<GC(10)>>]
+AG2 == {"c1", "c2", "g1"}
+Role_G2 == [a \in AG2 |-> IF a = "g1" THEN "collector" ELSE "committer"]
+Idx_G2 == [a \in AG2 |-> IF a = "c1" THEN 1 ELSE IF a = "c2" THEN 2 ELSE 3]
+Sep_G2 == [a \in AG2 |-> a]
+Prog_G2 == [a \in AG2 |-> IF a = "c1" THEN <<App(1)>> ELSE IF a = "c2" THEN <<App(2)>> ELSE <<GC(10)>>]
 A1 == {"c1"}
 Role_C1 == [a \in A1 |-> "committer"]
 Idx_1 == [a \in A1 |-> 1]
